@@ -151,8 +151,9 @@ def _kernels(rng):
 def observe_kernels(rng, sizes, nts, targets, repeats, dtypes):
     recs = []
     K = _kernels(rng)
-    for name, (mk, call, ref) in K.items():
-        for n, nt, tg, dt in itertools.product(sizes, nts, targets, dtypes):
+    # thread count outermost: quimb re-creates its cached pool whenever the requested size changes
+    for nt, (name, (mk, call, ref)) in itertools.product(nts, K.items()):
+        for n, tg, dt in itertools.product(sizes, targets, dtypes):
             a = mk(n, dt)
             expect = np.asarray(ref(a))
             worst, exc = 0, ""
